@@ -231,3 +231,78 @@ def render(sheets, fmt, **kw):
     if fmt == "dict":
         return to_dict(sheets, **kw)
     raise ValueError(fmt)
+
+
+# ------------------------------------------------------------------------- xlsx as other producers write it
+# The same cells in other encodings OOXML allows (openpyxl writes shared strings and plain <v> values only):
+#  inline     every text cell as an inline string (<c t="inlineStr"><is><t>..</t></is></c>), as streaming writers emit
+#  richruns   every shared string split into two formatted runs plus a phonetic run (<r><t>..</t></r><r>..</r><rPh>..</rPh>)
+#  formula    numbers, booleans and text as formula cells with their cached value (<f>..</f><v>..</v>, text as t="str")
+#  nodim      the worksheet part without its <dimension> element (optional in the schema)
+#  prefixed   text cells carrying xml:space="preserve" and the worksheet written with CR LF line ends between rows
+FOREIGN_XLSX_STYLES = ("inline", "richruns", "formula", "nodim", "spaced")
+
+
+def xlsx_foreign(data: bytes, style: str) -> bytes:
+    import re
+    import zipfile
+    from xml.sax.saxutils import escape
+
+    zin = zipfile.ZipFile(io.BytesIO(data))
+    parts = {n: zin.read(n) for n in zin.namelist()}
+    shared = []
+    if "xl/sharedStrings.xml" in parts:
+        import xml.etree.ElementTree as ET
+
+        ns = "{http://schemas.openxmlformats.org/spreadsheetml/2006/main}"
+        for si in ET.fromstring(parts["xl/sharedStrings.xml"]).iter(ns + "si"):
+            shared.append("".join(t.text or "" for t in si.iter(ns + "t")))
+
+    def t_el(s):
+        return f'<t xml:space="preserve">{escape(s)}</t>'
+
+    def sheet_edit(xml: str) -> str:
+        if style == "nodim":
+            return re.sub(r"<dimension [^>]*/>", "", xml)
+        if style == "spaced":
+            return xml.replace("</row>", "</row>\r\n").replace("<sheetData>", "<sheetData>\r\n  ")
+
+        def cell(m):
+            attrs, inner = m.group(1), m.group(2)
+            tm = re.search(r'\bt="(\w+)"', attrs)
+            typ = tm.group(1) if tm else "n"
+            vm = re.search(r"<v>(.*?)</v>", inner, re.S)
+            if vm is None:
+                return m.group(0)
+            v = vm.group(1)
+            rest = re.sub(r'\s*\bt="\w+"', "", attrs)
+            if style == "inline" and typ == "s":
+                return f'<c{rest} t="inlineStr"><is>{t_el(shared[int(v)])}</is></c>'
+            if style == "formula":
+                if typ == "s":
+                    s = shared[int(v)]
+                    lit = s.replace('"', '""')
+                    return f'<c{rest} t="str"><f>{escape(chr(34) + lit + chr(34))}</f><v>{escape(s)}</v></c>'
+                if typ == "n":
+                    return f"<c{rest}><f>{v}+0</f><v>{v}</v></c>"
+                if typ == "b":
+                    return f'<c{rest} t="b"><f>{"TRUE()" if v == "1" else "FALSE()"}</f><v>{v}</v></c>'
+            return m.group(0)
+
+        return re.sub(r"<c( [^>]*?)>(.*?)</c>", cell, xml, flags=re.S)
+
+    out = io.BytesIO()
+    with zipfile.ZipFile(out, "w", zipfile.ZIP_DEFLATED) as z:
+        for n, b in parts.items():
+            if n.startswith("xl/worksheets/") and n.endswith(".xml") and style != "richruns":
+                b = sheet_edit(b.decode("utf-8")).encode("utf-8")
+            elif n == "xl/sharedStrings.xml" and style == "richruns":
+                items = []
+                for s in shared:
+                    k = len(s) // 2
+                    items.append(f'<si><r>{t_el(s[:k])}</r><r><rPr><b/><sz val="11"/></rPr>{t_el(s[k:])}</r>'
+                                 f'<rPh sb="0" eb="1"><t>phon</t></rPh><phoneticPr fontId="1"/></si>')
+                b = ('<?xml version="1.0" encoding="UTF-8" standalone="yes"?>\n<sst xmlns="http://schemas.openxmlformats.org/spreadsheetml/2006/main" '
+                     f'count="{len(shared)}" uniqueCount="{len(shared)}">{"".join(items)}</sst>').encode("utf-8")
+            z.writestr(n, b)
+    return out.getvalue()
